@@ -30,14 +30,15 @@ def key_chooser(ctx: Ctx) -> None:
     na = ip.nested.get("_name_or_alias")
     require(na is not None, "item_property._name_or_alias not found")
     s = na.param_names()[0]
-    rets = [r for r in body_walk(na.node) if isinstance(r, ast.Return)]
-    out: Dict[str, List[Tuple[str, bool]]] = {}
-    for r in rets:
-        out[ast.unparse(r.value)] = sorted((ast.unparse(a), pol) for a, pol in facts(ctx, na, r))
-    want_alias = sorted([(f"{name} not in {s}", True), (alias, True), (f"{alias} in {s}", True)])
-    alt_alias = sorted([(f"{name} in {s}", False), (alias, True), (f"{alias} in {s}", True)])
-    ctx.expect("R-TABLE", na, "the alias is chosen exactly when the standard key is absent and the alias is present", out.get(alias) in (want_alias, alt_alias) and len(rets) == 2 and name in out,
-               str(out), f"key chooser returns: {out}", node=na.node)
+    from ..decide import decisions, judge_table
+
+    def outcome(d):
+        k, v = d.terminal()
+        return ast.unparse(v) if (k == "return" and v is not None) else k
+
+    judge_table(ctx, "R-TABLE", na, "the alias is chosen exactly when the standard key is absent and the alias is present", decisions(ctx, na),
+                [f"{name} in {s}", alias, f"{alias} in {s}"],
+                lambda a: alias if ((not a[f"{name} in {s}"]) and a[alias] and a[f"{alias} in {s}"]) else name, outcome)
     accs = {"get": ip.nested.get("item_property"), "set": ip.nested.get("item_property@setter"), "del": ip.nested.get("item_property@deleter")}
     for k, f in accs.items():
         require(f is not None, f"item_property accessor '{k}' not found")
